@@ -132,6 +132,21 @@ func vPointShape(shape int) data.Point {
 	return p
 }
 
+// vPointShapeAny: like vPointShape but the value may be any float64 (NaN too).
+func vPointShapeAny(shape int) data.Point {
+	sh := vShapes[shape]
+	return data.Point{
+		Type:      vFixName(sh[0]),
+		Key:       vFixName(sh[1]),
+		Time:      time.Unix(0, vI64()),
+		Value:     vF64(),
+		Text:      vStr(1),
+		Tombstone: int(vI32()),
+		Origin:    vStr(1),
+		Data:      vBytes(1),
+	}
+}
+
 func vNormKey(k string) string {
 	if k == "" {
 		return "0"
